@@ -371,12 +371,20 @@ type GlobCase struct {
 	Alpha  string        `json:"alpha"`
 	MaxLen int           `json:"maxlen"`
 	Base   uint32        `json:"base"`
+	Enc    string        `json:"enc,omitempty"` // "hex": Pat texts and Alpha are hex (raw bytes)
 }
 
 func runGlob(c GlobCase) (evid.Result, error) {
 	res := evid.Result{}
 	if c.Base == 0 {
 		c.Base = 1
+	}
+	var err error
+	if c.Pat, err = decPattern(c.Enc, c.Pat); err != nil {
+		return res, err
+	}
+	if c.Alpha, err = unhx(c.Enc, c.Alpha); err != nil {
+		return res, err
 	}
 	sorted := universe(c.Alpha, c.MaxLen)
 	scrambled := make([]string, len(sorted)) // deterministic non-sorted order: reversed, halves swapped
@@ -412,6 +420,15 @@ func runGlob(c GlobCase) (evid.Result, error) {
 	}
 	if sh.dataStar {
 		res.Labels = append(res.Labels, "data-asterisk")
+	}
+	if c.Enc == encHex {
+		res.Labels = append(res.Labels, "alphabet:rawbytes")
+	}
+	if prefixEndsFF(c.Pat) {
+		res.Labels = append(res.Labels, "prefix-ends-0xff")
+	}
+	if prefixEndsNUL(c.Pat) {
+		res.Labels = append(res.Labels, "prefix-ends-0x00")
 	}
 	switch {
 	case nmatch == 0:
@@ -449,6 +466,14 @@ func TestEnumGlob(t *testing.T) {
 	r.Note("glob_star_max_pattern_symbols", starPat)
 	r.Note("glob_star_max_token_len", starTok)
 	r.Note("glob_star_tokens", len(universe("ab*", starTok)))
+	rawPat, rawTok := envInt("C13_RAW_PATLEN", 6), envInt("C13_RAW_TOKLEN", 5)
+	r.Note("glob_raw_alphabet", "bytes 'a', 0x00, 0xff + wildcard")
+	r.Note("glob_raw_max_pattern_symbols", rawPat)
+	r.Note("glob_raw_max_token_len", rawTok)
+	r.Note("glob_raw_tokens", len(universe(rawAlpha, rawTok)))
+	nraw := 0
+	eachSyms(rawAlpha, rawPat, func([]int) bool { nraw++; return true })
+	r.Note("glob_raw_patterns", nraw)
 	n := 0
 	eachSyms("ab", patLen, func([]int) bool { n++; return true })
 	eachSyms("ab*", starPat, func(s []int) bool {
@@ -478,7 +503,16 @@ func TestEnumGlob(t *testing.T) {
 			if !hasStar { // covered by the first pass
 				return true
 			}
-			return yield(GlobCase{Pat: symsToPattern(s, "ab*"), Alpha: "ab*", MaxLen: starTok, Base: 3})
+			ok = yield(GlobCase{Pat: symsToPattern(s, "ab*"), Alpha: "ab*", MaxLen: starTok, Base: 3})
+			return ok
+		})
+		if !ok {
+			return
+		}
+		// raw bytes: every pattern over {a, 0x00, 0xff, wildcard} (patterns of 'a' only are also
+		// in the first pass, but against another token set)
+		eachSyms(rawAlpha, rawPat, func(s []int) bool {
+			return yield(GlobCase{Pat: encPattern(symsToPattern(s, rawAlpha)), Alpha: hx(rawAlpha), MaxLen: rawTok, Base: 2, Enc: encHex})
 		})
 	}, runGlob)
 }
